@@ -250,7 +250,9 @@ def model_for(ctx: Any, m: dict[str, Any], n_inputs: int | None) -> dict[str, An
         # sockets: the init error of a header-less stream is read with the first output; a session that is closed
         # without ever reading never sees it (close() drains best-effort) — see known finding C01:init-error-unread
         unread = (not m.get("header")) and n_inputs == 0
-        return {"pipe": [] if unread else [err], "sem": [err]}
+        # the logs the method emitted before it raised are flushed in front of the init error (repaired, C08)
+        pre = [["log", x["level"], x["text"], sorted([list(i) for i in x.get("extra", {}).items()])] for x in m.get("init_logs", [])]
+        return {"pipe": [] if unread else pre + [err], "sem": pre + [err]}
     steps = m["steps"]
     if m["kind"] == "exchange":
         assert n_inputs is not None
